@@ -65,6 +65,10 @@ def run_monitored(sc, prop, extra_check=None) -> Result:
             res.stats[f"other_property_hits.{m.name}"] += len(m.violations)
     if inj is not None:
         res.stats["faults_fired"] += len(inj.fired)
+    if any(r.hang is not None for r in run.results):
+        res.stats["other_property_hits.hang"] += 1
+        if prop != "C10":
+            res.discard = "build hangs (judged by C10)"
     if extra_check is not None:
         extra_check(sc, run, res, mons, inj)
     res.nontrivial = ncmd >= 2
